@@ -55,7 +55,13 @@ func Reads(n datamodel.Node) string {
 
 func reads(sb *strings.Builder, n datamodel.Node) {
 	kind := n.Kind()
-	fmt.Fprintf(sb, "(%s;L%d;as:%s;", kindNames[kind], n.Length(), asLetters(n))
+	b01 := func(b bool) string {
+		if b {
+			return "1"
+		}
+		return "0"
+	}
+	fmt.Fprintf(sb, "(%s;L%d;as:%s;na:%s%s;", kindNames[kind], n.Length(), asLetters(n), b01(n.IsNull()), b01(n.IsAbsent()))
 	var kids []datamodel.Node
 	// map iteration
 	sb.WriteString("mi:")
